@@ -162,9 +162,14 @@ func independent(c *hx.Ctx, what string, mk func() interface{}, f func(src inter
 	}
 	// (b) mutate the result, the source must not change
 	before := snapshot(src)
+	if probe := mutate(reflect.ValueOf(mk())); probe == 0 {
+		c.HarnessError("alias/%s: nothing to mutate in the source (the generator did not populate it)", what)
+	}
 	n := mutate(reflect.ValueOf(res))
 	if n == 0 {
-		c.HarnessError("alias/%s: nothing to mutate in the result (generator did not populate it)", what)
+		// a populated source gave a result with nothing in it: a loss of values, which the
+		// value streams (conv, copy, optional) judge; there is no aliasing to test here
+		c.Count("alias.empty-result."+what, 1)
 	}
 	c.Count("alias.mutations."+what, n)
 	if after := snapshot(src); after != before {
